@@ -393,7 +393,8 @@ fn run_once(sched: &Arc<Sched>, sc: &Value, sc_ix: usize, run_ix: usize, micro: 
         schedule.extend(s);
     }
     sched.set_after(None);
-    out.push(json!({"k": "end", "st": state_json(&ex.level, Some(&ex.gen), true)}));
+    out.push(json!({"k": "end", "st": state_json(&ex.level, Some(&ex.gen), true),
+                    "sched": schedule.iter().map(|t| t + 1).collect::<Vec<_>>()}));
     schedule
 }
 
